@@ -180,7 +180,8 @@ class Outcome:
 
 class Machine:
     def __init__(self, cfg: CFG, ops: Any, max_steps: int = 600, max_outcomes: int = 3000,
-                 resolver: Optional[Callable[[ast.Call, Dict[str, Any]], Any]] = None, depth: int = 0):
+                 resolver: Optional[Callable[[ast.Call, Dict[str, Any]], Any]] = None, depth: int = 0,
+                 budget: Optional[List[int]] = None):
         """``resolver(call_ast, env)`` may return ``(callee_cfg, bound_parameters)`` for a call
         of a synchronous library helper; the helper is then evaluated by a nested machine
         (shared '@' state), so extracting code into a private helper does not blind a rule."""
@@ -192,6 +193,9 @@ class Machine:
         self.max_steps = max_steps
         self.max_outcomes = max_outcomes
         self.forked = False  # did any step have more than one successor (an uninterpreted condition / outcome)?
+        # all steps of this evaluation, the nested machines for helper calls included: forks multiply paths, and each path
+        # has its own step limit - the total work is bounded here (an evaluation that needs more decides nothing)
+        self.budget = budget if budget is not None else [40000]
 
     def run(self, env: Dict[str, Any], start: Optional[Node] = None,
             stop: Optional[Callable[[Node], bool]] = None,
@@ -201,6 +205,10 @@ class Machine:
         work: List[Tuple[Node, List[Node], Dict[str, Any], int]] = [(start or self.cfg.entry, [], dict(env), 0)]
         while work:
             node, path, e, steps = work.pop()
+            self.budget[0] -= 1
+            if self.budget[0] < 0:
+                self.forked = True
+                raise AnalysisError(f"{self.cfg.unit.short}: abstract evaluation exceeds its total work budget")
             if steps > self.max_steps:
                 raise AnalysisError(f"{self.cfg.unit.short}: abstract evaluation does not terminate")
             path = path + [node]
@@ -287,7 +295,8 @@ class Machine:
                 sub_env = {key: val for key, val in e.items() if key.startswith("@")}
                 sub_env.pop("@return", None)
                 sub_env.update(bound)
-                sub = Machine(callee_cfg, self.ops, self.max_steps, self.max_outcomes, self.resolver, self.depth + 1)
+                sub_env["@unit"] = callee_cfg.unit  # (which function's body is being evaluated: closures are looked up in it)
+                sub = Machine(callee_cfg, self.ops, self.max_steps, self.max_outcomes, self.resolver, self.depth + 1, self.budget)
                 out: List[Tuple[Node, Dict[str, Any]]] = []
                 try:
                     sub_outcomes = sub.run(sub_env)
@@ -304,7 +313,7 @@ class Machine:
                 for oc in sub_outcomes:
                     e2 = dict(e)
                     for key, val in oc.env.items():
-                        if key.startswith("@") and key not in ("@return", "@callvals", "@handling"):
+                        if key.startswith("@") and key not in ("@return", "@callvals", "@handling", "@unit"):
                             e2[key] = val
                     if oc.terminal.kind == "raise_exit":
                         out.extend((s, e2) for lab, s in node.succ if lab == "e")
